@@ -60,7 +60,11 @@ Definition chk_jit (c : list (list float) * float * list (list float)) : bool :=
 (* linear-algebra case *)
 Record upd := mkU { u_kvec : list float; u_kscal : float; u_noise : float; u_mscal : float;
                     u_target : list float; u_clamp2 : float;
-                    u_L2 : list (list float); u_P2 : list (list float); u_tolL : float; u_tolP : float }.
+                    u_L2 : list (list float); u_P2 : list (list float); u_tolL : float; u_tolP : float;
+                    (* sample_and_update with scripted N(0,1) draws *)
+                    u_z : list float; u_floor : float; u_starget : list float;
+                    u_L3 : list (list float); u_P3 : list (list float);
+                    u_tolT : float; u_tolL3 : float; u_tolP3 : float }.
 Record gpc := mkC { g_K : list (list float); g_sigsq : float; g_sys : list (list float); g_Y : list (list float); g_mvec : list float;
                     g_kcols : list (list float); g_mstar : list float; g_kdiag : list float; g_floor : float;
                     g_Kss : list (list float);
@@ -94,8 +98,36 @@ Definition chk_upd (c : gpc) : bool :=
                                        (u_target u) (u_clamp2 u) in
       mclose (u_tolL u) L2 (u_L2 u) && mclose (u_tolP u) P2 (u_P2 u)
   end.
-(* bit k of the result = step k disagrees; the driver decodes *)
-Definition chk_all (c : gpc) : bool := chk_chol c && chk_predict c && chk_nlml c && chk_cov c && chk_upd c.
+Definition chk_su (c : gpc) : bool :=
+  match g_upd c with
+  | None => true
+  | Some u =>
+      let '((L3, P3), tgt) := sample_and_cholesky_update NumF (g_L c) (g_P c) (u_kvec u) (u_kscal u) (u_noise u)
+                                (u_mscal u) (u_z u) (u_floor u) (u_clamp2 u) in
+      vclose (u_tolT u) tgt (u_starget u) && mclose (u_tolL3 u) L3 (u_L3 u) && mclose (u_tolP3 u) P3 (u_P3 u)
+  end.
+Definition chk_all (c : gpc) : bool :=
+  chk_chol c && chk_predict c && chk_nlml c && chk_cov c && chk_upd c && chk_su c.
+
+(* composite kernels: Matern / warped / product / range *)
+Inductive kspec :=
+  | KM (ibs : list float) (cs : float)
+  | KW (base : kspec) (blocks : list (nat * nat * list float * list float))
+  | KP (k1 : kspec) (d1 : nat) (k2 : kspec)
+  | KR (k : kspec) (start len : nat).
+Fixpoint keval (jit : float) (s : kspec) : vec NumF -> vec NumF -> float :=
+  match s with
+  | KM ibs cs => matern52 NumF ibs cs jit
+  | KW b bl => warped_kernel NumF (keval jit b) jit
+                 (map (fun q => let '(lo, up, a, b') := q in mkW NumF lo up a b') bl)
+  | KP a d1 b => product_kernel NumF (keval jit a) d1 (keval jit b)
+  | KR a st ln => range_kernel NumF (keval jit a) st ln
+  end.
+Definition ccase := (kspec * float * list (list float) * list (list float) * list (list float)
+                     * list (list float) * float)%type.
+Definition chk_ckernel (c : ccase) : bool :=
+  let '(sp, jit, X, Xt, Kxx, Kxt, tol) := c in
+  mclose tol (kmatrix NumF (keval jit sp) X X) Kxx && mclose tol (kmatrix NumF (keval jit sp) X Xt) Kxt.
 """
 
 
@@ -399,6 +431,27 @@ def run_case(ctx, spec, cases_k, cases_g, meta, kmeta, jit_cases, jit_meta):
     if not np.allclose(ms, want, rtol=1e-13, atol=1e-13 * (1 + float(np.max(np.abs(want))))):
         viol("sample_marginals != mean + z * sqrt(variance)", "sample_marginals")
 
+    # sample_and_update with scripted draws (and a mean-impute mask): target = posterior mean + z * posterior std,
+    # and the new state is the one update() gives for that target
+    zs = np.array([lrng.gauss(0, 1) for _ in range(m)])
+    mask = [lrng.random() < 0.3 for _ in range(m)] if lrng.random() < 0.5 else None
+    starget, state_su = state.sample_and_update(xnew, mean_impute_mask=mask,
+                                                random_state=ScriptedNormal([zs.reshape(1, m)]))
+    starget = np.asarray(starget).reshape(-1)
+    zs_eff = np.where(np.array(mask), 0.0, zs) if mask is not None else zs
+    L3, P3 = np.asarray(state_su.chol_fact), np.asarray(state_su.pred_mat)
+    mu_x, var_x = state.predict(xnew)
+    mu_x, std_x = np.asarray(mu_x).reshape(-1), math.sqrt(float(np.asarray(var_x).reshape(-1)[0]))
+    st_u = state.update(xnew, starget.reshape(1, m))
+    want_t = mu_x + zs_eff * std_x
+    tscale = float(np.max(np.abs(mu_x))) + float(np.max(np.abs(zs_eff))) * std_x + abs(mval) + 1e-300
+    if not np.all(np.abs(starget - want_t) <= 1e-12 * tscale):
+        viol("sample_and_update target differs from predictive mean + z * predictive std at the new input by %.3g"
+             % float(np.max(np.abs(starget - want_t))), "sample_and_update_target")
+    if not (np.allclose(L3, np.asarray(st_u.chol_fact), rtol=1e-12, atol=1e-300)
+            and np.allclose(P3, np.asarray(st_u.pred_mat), rtol=1e-10, atol=1e-12 * (1 + float(np.max(np.abs(P3)))))):
+        viol("state after sample_and_update differs from update(feature, sampled target)", "sample_and_update_state")
+
     # ---- dense reference (numpy solve / slogdet on K + sigsq I) --------------------------
     A = K + sig_final * np.eye(n)
     cond = float(np.linalg.cond(A))
@@ -553,9 +606,17 @@ def run_case(ctx, spec, cases_k, cases_g, meta, kmeta, jit_cases, jit_meta):
     d_num = d_lvec * pn + 16 * EPS * float(np.max(num))
     tolP2 = float(np.max(num)) * d_lscal / (lscal * max(lscal - d_lscal, lscal * 0.5)) + d_num / lscal + 1e-300
     ctx.h("update_tol_useful", bool(tolP2 < 1e-3 * (1 + float(np.max(np.abs(P2[n, :]))))))
-    u = "(mkU %s %s %s %s %s %s %s %s %s %s)" % (
+    # sample_and_update: target = lvec.P + m + z*std, std = sqrt(max(kscal - |lvec|^2, floor))
+    d_var = 2 * nrm(lvec) * d_lvec + 16 * EPS * (kscal + float(lvec @ lvec))
+    d_std = d_var / (2 * std_x) if std_x * std_x > 4 * d_var else math.sqrt(4 * d_var + std_x * std_x)
+    tolT = 2 * d_lvec * pn + 16 * EPS * tscale + float(np.max(np.abs(zs_eff))) * d_std + 1e-300
+    num3 = np.abs(starget - mval) + np.abs(lvec @ P)
+    d_num3 = d_lvec * pn + 16 * EPS * float(np.max(num3)) + tolT
+    tolP3 = float(np.max(num3)) * d_lscal / (lscal * max(lscal - d_lscal, lscal * 0.5)) + d_num3 / lscal + 1e-300
+    u = "(mkU %s %s %s %s %s %s %s %s %s %s %s %s %s %s %s %s %s %s)" % (
         fvec(kv), fl(kscal), fl(noise), fl(mval), fvec(ynew), fl(MIN_CHOLESKY_DIAGONAL_VALUE ** 2),
-        fmat(L2), fcols(P2), fl(tolL2), fl(tolP2))
+        fmat(L2), fcols(P2), fl(tolL2), fl(tolP2),
+        fvec(zs_eff), fl(MIN_POSTERIOR_VARIANCE), fvec(starget), fmat(L3), fcols(P3), fl(tolT), fl(tolL2), fl(tolP3))
     g = "(mkC %s %s %s %s %s %s %s %s %s %s %s %s %s %s %s %s (Some %s) %s %s %s %s %s %s)" % (
         fmat(K), fl(sig_final), fmat(sys_mat), fcols(Y), fvec(mvec), fcols(Kte), fvec(mstar), fvec(kdiag),
         fl(MIN_POSTERIOR_VARIANCE), fmat(Kss), fmat(L), fcols(P), fmat(mu), fvec(var), fopt(nl, fl),
@@ -578,7 +639,7 @@ def run_case(ctx, spec, cases_k, cases_g, meta, kmeta, jit_cases, jit_meta):
     return dict(n=n, d=d, m=m, cond=cond, mean0=float(mu[0, 0]), var0=float(var[0]), nlml=nl)
 
 
-STEPS = ["chk_chol", "chk_predict", "chk_nlml", "chk_cov", "chk_upd"]
+STEPS = ["chk_chol", "chk_predict", "chk_nlml", "chk_cov", "chk_upd", "chk_su"]
 
 
 def run(ctx, replay=None):
@@ -601,7 +662,11 @@ def run(ctx, replay=None):
             import warnings
             with warnings.catch_warnings():
                 warnings.simplefilter("ignore")
-                gplin_composite.run_case(ctx, replay["spec"])
+                ck_cases, ck_meta = [], []
+                gplin_composite.run_case(ctx, replay["spec"], ck_cases, ck_meta)
+            for i in ctx.coq_bad_cases("ckernel", IMPORTS, PRELUDE, "chk_ckernel", ck_cases, shard=40):
+                ctx.violation("correspondence", "model composite kernel matrix differs from the implementation", case=ck_meta[i],
+                              failing_input=False, broken="correspondence chk_ckernel (model/GPLin.v warped/product/range kernel)")
             return
         if replay.get("kind") != "gp":
             return
@@ -611,6 +676,7 @@ def run(ctx, replay=None):
         specs = [gen_spec(rng) for _ in range(ctx.n(400, 3000))]
         cspecs = [gplin_composite.gen_spec(rng) for _ in range(ctx.n(250, 2000))]
     cases_k, cases_g, meta, kmeta, jit_cases, jit_meta = [], [], [], [], [], []
+    ck_cases, ck_meta = [], []
     import warnings
     with warnings.catch_warnings():
         warnings.simplefilter("ignore")
@@ -622,7 +688,7 @@ def run(ctx, replay=None):
         nsamp = 0
         for cspec in cspecs:
             try:
-                info = gplin_composite.run_case(ctx, cspec)
+                info = gplin_composite.run_case(ctx, cspec, ck_cases, ck_meta)
             except (AssertionError, ValueError, IndexError, TypeError, np.linalg.LinAlgError) as e:
                 info = None     # the real code (or the comparison of its output shapes) failed on a valid input
                 ctx.violation("property", "[%s kernel] exception on a valid input: %r" % (cspec["sub"], e),
@@ -635,6 +701,10 @@ def run(ctx, replay=None):
         ctx.violation("correspondence", "model Matern-5/2 kernel matrix differs from Matern52.forward/diagonal "
                       "beyond round-off", case=kmeta[i], failing_input=False,
                       broken="correspondence chk_kernel (model/GPLin.v kernel_matrix)")
+    for i in ctx.coq_bad_cases("ckernel", IMPORTS, PRELUDE, "chk_ckernel", ck_cases, shard=40):
+        ctx.violation("correspondence", "model composite kernel matrix (warped / product / range) differs from the "
+                      "implementation beyond round-off", case=ck_meta[i], failing_input=False,
+                      broken="correspondence chk_ckernel (model/GPLin.v warped/product/range kernel)")
     for i in ctx.coq_bad_cases("jitter", IMPORTS, PRELUDE, "chk_jit", jit_cases, shard=40):
         ctx.violation("correspondence", "model add_diag differs from AddJitterOp's output", case=jit_meta[i],
                       failing_input=False, broken="correspondence chk_jit (model/GPLin.v add_diag)")
